@@ -282,7 +282,7 @@ def snapshot(paths):
     return {p: alpha.tree_digest(p) for p in paths}
 
 
-def one_run(chk, templates, case, fault_at, tid):
+def one_run(chk, templates, case, fault_at, tid, late=False):
     label, inputs, fn, allowed_rel = case
     work = chk.tmp()
     os.makedirs(os.path.join(work, "data"))
@@ -299,7 +299,7 @@ def one_run(chk, templates, case, fault_at, tid):
     before = None
     sys.dont_write_bytecode = True
     try:
-        with shims.fs_audit(fault_at=fault_at, count=True) as audit:
+        with shims.fs_audit(fault_at=fault_at, count=True, late=late) as audit:
             # the harness's own preparation inside fn (deleting a binary) happens before Begin:
             # events are filtered below on the snapshot taken right before the tool call
             try:
@@ -310,9 +310,12 @@ def one_run(chk, templates, case, fault_at, tid):
             except BaseException as e:  # noqa
                 outcome = "exc"
                 exc = e
+            import gc
+            gc.collect()                   # files the tool never closed are closed by their finalisers now
             events = list(audit.events)
             npoints = audit.points
             faulted = audit.faulted
+            one_run.point_log = list(audit.point_log)
     finally:
         os.chdir(old_cwd)
     return work, in_roots, events, npoints, faulted, outcome, allowed
@@ -334,9 +337,9 @@ def classify(path, work, in_roots, allowed):
     return "other", os.path.relpath(path, work).split(os.sep)
 
 
-def record(chk, templates, case, fault_at, tid, lines, meta):
+def record(chk, templates, case, fault_at, tid, lines, meta, late=False):
     label = case[0]
-    work, in_roots, events, npoints, faulted, outcome, allowed = one_run(chk, templates, case, fault_at, tid)
+    work, in_roots, events, npoints, faulted, outcome, allowed = one_run(chk, templates, case, fault_at, tid, late)
     # inputs compared with the templates (the unreadable-input cases delete a file themselves before
     # calling the tool: that deletion is the harness's, it shows as a Remove event we skip)
     same = True
@@ -361,7 +364,7 @@ def record(chk, templates, case, fault_at, tid, lines, meta):
         else:
             lines.append({"tid": tid, "ev": "Mutate", "root": root, "rel": rel, "kind": e["ev"]})
     lines.append({"tid": tid, "ev": "Return", "outcome": outcome, "same": same})
-    meta[tid] = {"case": label, "fault_at": fault_at, "points": npoints, "faulted": faulted, "outcome": outcome}
+    meta[tid] = {"case": label, "fault_at": fault_at, "late": late, "points": npoints, "faulted": faulted, "outcome": outcome}
     shutil.rmtree(work, ignore_errors=True)
     return npoints
 
@@ -381,6 +384,13 @@ def run(chk, replay):
                                            "PROPERTIES": ["Terminates"]}, workers=4, timeout=600), what)
         if r.violated:
             chk.note_drift("TLC: %s violated in FsIO.tla (design level)" % r.violated)
+    # buffered writers: a loss is reported whatever the sizes when files are closed explicitly (with-blocks), as the tools do
+    for nw, cap, df in ((3, 4, 1), (5, 2, 3), (4, 4, 0), (4, 1, 2)):
+        r = chk.add_tlc(tlc.run("BufWriter", {"SPECIFICATION": "Spec", "CONSTANTS": {"NWrites": nw, "Cap": cap, "DevFailsAt": df, "CloseMode": '"explicit"'},
+                                              "INVARIANTS": ["LossIsReported", "NothingLostSilently"], "PROPERTIES": ["Terminates"]},
+                                workers=1, timeout=120), "buffered writer (%d writes, capacity %d, device fails after %d)" % (nw, cap, df))
+        if r.violated:
+            chk.note_drift("TLC: %s violated in BufWriter.tla" % r.violated)
     # 2. traces of real runs
     templates = make_templates(chk, chk.seed + 7)
     all_cases = cases()
@@ -393,16 +403,32 @@ def run(chk, replay):
     for ci, case in enumerate(all_cases):
         tid += 1
         n = record(chk, templates, case, None, tid, lines, meta)
+        plog = list(one_run.point_log)
         ks = list(range(1, n + 1))
         if quick and len(ks) > 14:
             # every open-for-write is a distinct kind of point; sample the writes
             step = max(1, len(ks) // 14)
             ks = sorted(set(ks[::step] + ks[:3] + ks[-3:]))
         if replay and replay["scenario"].get("fault_at"):
-            ks = [replay["scenario"]["fault_at"]]
+            ks = [] if replay["scenario"].get("late") else [replay["scenario"]["fault_at"]]
         for k in ks:
             tid += 1
             record(chk, templates, case, k, tid, lines, meta)
+        # LATE faults (spec/BufWriter.tla): the write() returns, the error is raised by the call that empties the buffer (a later
+        # write once the buffer overflows, flush, close); for every file the tool writes, its first and its last write()
+        first, last = {}, {}
+        for k, (what, pth) in enumerate(plog, 1):
+            if what == "write":
+                first.setdefault(pth, k)
+                last[pth] = k
+        lks = sorted(set(first.values()) | set(last.values()))
+        if quick and len(lks) > 8:
+            lks = sorted(set(lks[::max(1, len(lks) // 8)] + lks[-2:]))
+        if replay and replay["scenario"].get("fault_at"):
+            lks = [replay["scenario"]["fault_at"]] if replay["scenario"].get("late") else []
+        for k in lks:
+            tid += 1
+            record(chk, templates, case, k, tid, lines, meta, late=True)
     tf = os.path.join(chk.scratch, "fs_trace.ndjson")
     with open(tf, "w") as f:
         for ln in lines:
@@ -420,7 +446,7 @@ def run(chk, replay):
         bad.setdefault(int(t), []).append(inv)
     for t in sorted(meta):
         m = meta[t]
-        fclass = "none" if not m["fault_at"] else "fault"
+        fclass = "none" if not m["fault_at"] else ("late-fault" if m.get("late") else "fault")
         sigs = util.sig_str(m["case"], fclass)
         chk.executed(sigs, nontrivial=bool(m["fault_at"]) or "default" in m["case"],
                      sample={"case": m["case"], "fault_at": m["fault_at"], "write_points": m["points"], "outcome": m["outcome"]})
@@ -430,7 +456,7 @@ def run(chk, replay):
             detail = "%s violated by run '%s' (fault at write point %r, outcome %s); first offending events: %s" % (
                 ", ".join(sorted(set(bad[t]))), m["case"], m["fault_at"], m["outcome"],
                 core.jdump([e for e in ev if e.get("root") not in ("out", None)][:3]))
-            chk.violation(sigs, detail, {"case": m["case"], "fault_at": m["fault_at"], "events": ev[:200]},
+            chk.violation(sigs, detail, {"case": m["case"], "fault_at": m["fault_at"], "late": bool(m.get("late")), "events": ev[:200]},
                           klass="%s/%s" % (m["case"], ",".join(sorted(set(bad[t])))))
     chk.extra["runs"] = tid
     chk.extra["trace_events"] = len(lines)
